@@ -240,6 +240,17 @@ class Interp:
             return f(*args, **kwargs)
         return self.native(f, args, kwargs)
 
+    def call_nosummary(self, f, args=(), kwargs=None):
+        """Interpret the real body of f even if a summary is registered for it."""
+        if isinstance(f, types.MethodType):
+            return self.call_nosummary(f.__func__, [f.__self__] + list(args), kwargs)
+        saved = self.summaries
+        self.summaries = {k: v for k, v in saved.items() if k is not f}
+        try:
+            return self.call(f, args, kwargs)
+        finally:
+            self.summaries = saved
+
     def call_ast(self, node, func, args, kwargs, globals_, parent=None, defcls=None):
         if self.depth > self.max_depth:
             raise Unsupported("interpretation depth exceeded")
